@@ -59,8 +59,8 @@ type tierCfg struct {
 
 var tiers = map[string]tierCfg{
 	"C04": {QuickRuns: 64000, ThoroughRuns: 3200000, Workers: 16, Enum: true, EnumQuickStride: 1},
-	"C08": {QuickRuns: 1600, ThoroughRuns: 80000, Workers: 16},
-	"C12": {QuickRuns: 1600, ThoroughRuns: 80000, Workers: 16},
+	"C08": {QuickRuns: 6400, ThoroughRuns: 160000, Workers: 16},
+	"C12": {QuickRuns: 4800, ThoroughRuns: 160000, Workers: 16},
 	"C20": {QuickRuns: 1600, ThoroughRuns: 80000, Workers: 16},
 	"C13": {QuickRuns: 3200, ThoroughRuns: 160000, Workers: 16},
 	"C14": {QuickRuns: 1600, ThoroughRuns: 60000, Workers: 8},
